@@ -737,8 +737,8 @@ def element_pools():
     out['flowspec'] = [upd.flowspec_rule(r) for r in fs]
     import struct
     singles = [c[0] for c, cv in community_pool('quick') if cv[0] == 'n=1']
-    out['community'] = [struct.pack('!I', upd.community_value(c)) for c in singles]
-    out['ext_community'] = [upd.ext_community_bytes(item) for _, item in ext_kinds()]
+    out['community'] = _distinct(struct.pack('!I', upd.community_value(c)) for c in singles)
+    out['ext_community'] = _distinct(upd.ext_community_bytes(item) for _, item in ext_kinds())
     out['large_community'] = [struct.pack('!III', *upd._large(c[0])) for c, cv in large_pool('quick') if cv[0] == 'n=1']
     out['cluster_id'] = [ipaddress.IPv4Address(ip).packed for ip in IP4_BOUNDS + ('1.1.1.1', '2.2.2.2', '100.100.100.100')]
     for asn4 in (False, True):
@@ -747,6 +747,15 @@ def element_pools():
             if len(value[0][1]) <= 64:
                 segs.append(upd._aspath_value(value, asn4, None))
         out['aspath_seg4' if asn4 else 'aspath_seg2'] = segs
+    return out
+
+
+def _distinct(items):
+    seen, out = set(), []
+    for i in items:
+        if i not in seen:
+            seen.add(i)
+            out.append(i)
     return out
 
 
